@@ -105,7 +105,8 @@ def _run(case):
             shutil.rmtree(d, ignore_errors=True)
     from netconan.anonymize_files import FileAnonymizer
 
-    fa = FileAnonymizer(anon_pwd=bool(case.get("pwd")), anon_ip=False, salt=salt, sensitive_words=list(words), reserved_words=list(user) if user else None)
+    # "undo": the address stage runs in the undo direction in the same run (-u -w); the lines hold no addresses
+    fa = FileAnonymizer(anon_pwd=bool(case.get("pwd")), anon_ip=False, undo_ip_anon=bool(case.get("undo")), salt=salt, sensitive_words=list(words), reserved_words=list(user) if user else None)
     out = core.run_io(fa, "".join(l + "\n" for l in lines), bool(case.get("nonl")))
     return out.split("\n")[:-1]
 
@@ -124,7 +125,7 @@ def check_words(case, ev):
     reserved_exact = set(_builtin()) | set(user)
     ov = overlapping(words)
     nt = ov
-    cls = ["via-" + case["via"]] + (["overlapping-list"] if ov else []) + (["user-reserved"] if user else []) + (["with-password-stage"] if case.get("pwd") else [])
+    cls = ["via-" + case["via"]] + (["overlapping-list"] if ov else []) + (["user-reserved"] if user else []) + (["with-password-stage"] if case.get("pwd") else []) + (["with-address-undo"] if case.get("undo") else [])
     if len(outs) != len(lines):
         return Finding("words/line-count", "%d lines in, %d out" % (len(lines), len(outs)), case)
     f = None
@@ -338,7 +339,7 @@ def _case(draw):
         pwd = True
         tails = ["cable shared-secret Zq9xWv", "wpa-psk ascii 7 ABCDEF0123", "ldap-login-password Pq7zz", "key-string 7 0822455D0A16", "password Hx9Gk2Lm", "snmp-server community Qq7Zz ro"]
         lines = [l.rstrip() + " " + draw(st.sampled_from(tails)) for l in lines]
-    return {"words": words, "reserved": user, "salt": draw(st.one_of(st.text(max_size=5), st.sampled_from(["", "s"]))), "lines": lines, "via": via, "pwd": pwd, "nonl": draw(st.integers(0, 3)) == 0}
+    return {"words": words, "reserved": user, "salt": draw(st.one_of(st.text(max_size=5), st.sampled_from(["", "s"]))), "lines": lines, "via": via, "pwd": pwd, "undo": via == "io" and not any(ch in l for l in lines for ch in ":.") and draw(st.booleans()), "nonl": draw(st.integers(0, 3)) == 0}
 
 
 _FORMS = ["password {}", "snmp-server community {}", "enable secret {}", " key {}", "username admin password {}", "set snmp community {}"]
